@@ -535,6 +535,56 @@ func c13scenarios() []*cliScenario {
 			args: func(r *cliRepo) []string {
 				return []string{"pull", "main", "origin", "refs/heads/main:refs/remotes/origin/main", "-n", "1"}
 			}},
+		{name: "wrgl transaction commit (one existing and one new branch)",
+			setup: func(r *cliRepo, _ string) error {
+				a := csv(r, "a.csv", [][]string{{"1", "a"}, {"2", "b"}})
+				if _, err := r.run(nil, "commit", "main", a, "base", "-p", "k", "-n", "1"); err != nil {
+					return err
+				}
+				out, err := r.run(nil, "transaction", "start")
+				if err != nil {
+					return err
+				}
+				id := strings.TrimSpace(out)
+				if _, err := r.writeFile("tx.id", []byte(id)); err != nil {
+					return err
+				}
+				b := csv(r, "b.csv", [][]string{{"1", "a"}, {"2", "b"}, {"3", "c"}})
+				if _, err := r.run(nil, "commit", "main", b, "main in tx", "-p", "k", "-n", "1", "--txid", id); err != nil {
+					return err
+				}
+				d := csv(r, "d.csv", [][]string{{"9", "z"}})
+				_, err = r.run(nil, "commit", "fresh", d, "fresh in tx", "-p", "k", "-n", "1", "--txid", id)
+				return err
+			},
+			args: func(r *cliRepo) []string {
+				b, _ := os.ReadFile(filepath.Join(r.root, "tx.id"))
+				return []string{"transaction", "commit", strings.TrimSpace(string(b))}
+			}},
+		{name: "wrgl transaction discard (two staged branches)",
+			setup: func(r *cliRepo, _ string) error {
+				a := csv(r, "a.csv", [][]string{{"1", "a"}, {"2", "b"}})
+				if _, err := r.run(nil, "commit", "main", a, "base", "-p", "k", "-n", "1"); err != nil {
+					return err
+				}
+				out, err := r.run(nil, "transaction", "start")
+				if err != nil {
+					return err
+				}
+				id := strings.TrimSpace(out)
+				r.writeFile("tx.id", []byte(id))
+				b := csv(r, "b.csv", [][]string{{"1", "a"}, {"2", "b"}, {"3", "c"}})
+				if _, err := r.run(nil, "commit", "main", b, "main in tx", "-p", "k", "-n", "1", "--txid", id); err != nil {
+					return err
+				}
+				d := csv(r, "d.csv", [][]string{{"9", "z"}})
+				_, err = r.run(nil, "commit", "fresh", d, "fresh in tx", "-p", "k", "-n", "1", "--txid", id)
+				return err
+			},
+			args: func(r *cliRepo) []string {
+				b, _ := os.ReadFile(filepath.Join(r.root, "tx.id"))
+				return []string{"transaction", "discard", strings.TrimSpace(string(b))}
+			}},
 		{name: "wrgl prune (after deleting a branch)",
 			setup: func(r *cliRepo, u string) error {
 				if err := twoBranches(r, u); err != nil {
@@ -611,15 +661,28 @@ func runSub(r *cliRepo, env []string, args ...string) (int, string) {
 	return -1, err.Error()
 }
 
-func c13CLI(c *mc.Ctx) {
+func c13CLI(c *mc.Ctx) { c13CLIWith(c, c13scenarios(), 0) }
+
+// c14CLI: the transaction scenarios of the same tier, run by C14
+func c14CLI(c *mc.Ctx) {
+	var scs []*cliScenario
+	for _, sc := range c13scenarios() {
+		if strings.Contains(sc.name, "transaction") {
+			scs = append(scs, sc)
+		}
+	}
+	c13CLIWith(c, scs, 1000)
+}
+
+func c13CLIWith(c *mc.Ctx, scs []*cliScenario, tplBase int) {
 	needRewrite("crashhook:badger")
 	needRewrite("crashhook:refsql")
-	scs := c13scenarios()
+	needRewrite("crashhook:refsql-stmt")
 	si := c.Choose(len(scs))
 	k := 1 + c.Choose(60)
 	c.Shard()
 	sc := scs[si]
-	tpl := c13templates[si]
+	tpl := c13templates[tplBase+si]
 	if tpl == nil {
 		repo, err := newCLIRepo()
 		if err != nil {
@@ -650,7 +713,7 @@ func c13CLI(c *mc.Ctx) {
 		}
 		os.RemoveAll(work.root)
 		tpl = &c13template{repo: repo, writes: strings.Count(string(b), "\n"), wantState: shape}
-		c13templates[si] = tpl
+		c13templates[tplBase+si] = tpl
 	}
 	if k > tpl.writes {
 		c.Skip()
@@ -700,7 +763,7 @@ func init() {
 		Level: "fault_enumeration",
 		Rule: "library tier: for each of 15 operations (commit of 0/2/300-row tables on a new or existing branch; receive of 1..2-commit transfers with several packfile size limits followed by the ref update; prune of five histories with unreachable commits (two with a chain of three unreachable commits); two 3-way merge commits) one uninterrupted run on recording stores yields the durable state after EVERY store write (each write is atomic), " +
 			"and every such crash state, plus an injected error at every object-store write, is checked: every ref resolves, every stored commit has its parents, every table whose object exists is fully usable (structural oracle), branches point at commits whose table exists; then the same operation is re-run on that state and must succeed and end with exactly the refs (for prune: exactly the objects) of the uninterrupted run (thorough: the re-run is itself interrupted after each of its writes, checked, and re-run). " +
-			"cli tier: the real wrgl binary path (commit, merge, pull, prune) is run as a subprocess that is killed at the k-th write of the Badger / SQLite stores for every k (build-time crash hook), reopened, checked and re-run. evaluations = crash / fault points; distinct by (operation, point)",
+			"cli tier: the real wrgl command path (commit, merge, pull, prune, transaction commit) is run as a subprocess that is killed at the k-th write of the Badger / SQLite stores for every k - before every mutating store method and before every SQL statement inside the ref store's methods (build-time crash hook) - reopened, checked and re-run. evaluations = crash / fault points; distinct by (operation, point)",
 		Assumptions: []string{"a crash is process death between two atomic store writes; torn writes, disk full and fsync reordering inside Badger / SQLite are not modelled", "ingest with more than one worker is covered by C16's schedules, not here"},
 		Harnesses: []*mc.Harness{
 			{Name: "library-crash-states", Body: c13Library, Budget: map[string]time.Duration{"quick": 75 * time.Second, "thorough": 10 * time.Minute}},
